@@ -79,6 +79,10 @@ func (f *Dotimes) Call(s *slip.Scope, args slip.List, depth int) slip.Object {
 	} else {
 		slip.TypePanic(s, depth, "dotimes input", args[0], "list")
 	}
+	if max < 0 {
+		// No iterations, the result form sees the number of iterations made.
+		max = 0
+	}
 	ns.Let(sym, nil) // use the safe way to verify it's a valid symbol to use for a let.
 	for i := int64(0); i < max; i++ {
 		ns.UnsafeLet(sym, slip.Fixnum(i))
